@@ -17,6 +17,8 @@ class Skip(Exception):
 
 
 def spelled_number(s):
+    if '_' in s:
+        return None             # python's digit grouping is not a spreadsheet number
     try:
         return Fr(int(s))
     except ValueError:
@@ -26,7 +28,7 @@ def spelled_number(s):
     except ValueError:
         return None
     if f != f or f in (float('inf'), float('-inf')):
-        raise Skip('nan/inf text')
+        return None             # "nan", "inf", "infinity", "1e999": text that spells no number
     return Fr(f)
 
 
